@@ -19,10 +19,13 @@ WALL = {'quick': 45, 'thorough': 1500}
 RULE = ('one command per case (put, list, restore with every index, empty with/without DAYS and --dry-run, rm *) on a world where each '
         'volume has a generated .Trash state (sticky dir, non-sticky dir, symlink to sticky / non-sticky dir, regular file, dangling, '
         'absent) with a populated .Trash/$uid where the state allows, plus populated .Trash-$uid and home trash; non-trivial = some '
-        'volume has an insecure .Trash with a populated $uid directory; distinct = (command, sorted .Trash states)')
+        'volume has an insecure .Trash with a populated $uid directory; in 12 % of the worlds with a sticky .Trash a multi-argument trash-put during '
+        'which .Trash stops being secure between two arguments (an environment event at a prompt of -i: chmod, replaced by a symlink, removed; or '
+        '.Trash itself given as an argument); distinct = (command, sorted .Trash states)')
 ASSUMPTIONS = []
 PROBES = ['insecure-populated', 'secure-used-by-list', 'secure-used-by-put', 'secure-used-by-restore', 'secure-purged', 'put-fell-through-to-alt',
-          'list-reported-skip', 'cmd-trash-put', 'cmd-trash-list', 'cmd-trash-restore', 'cmd-trash-empty', 'cmd-trash-rm']
+          'list-reported-skip', 'cmd-trash-put', 'cmd-trash-list', 'cmd-trash-restore', 'cmd-trash-empty', 'cmd-trash-rm',
+          'dot-Trash-becomes-insecure-between-arguments', 'later-argument-trashed']
 TECHNIQUE = 'deterministic simulation of all five commands over the lattice of .Trash states; frame oracle on $topdir/.Trash/$uid plus output checks'
 LEVEL_TEXT = 'seeded exploration of volume layouts x .Trash states x commands; secure states are checked to be used so the check cannot pass vacuously'
 LEVEL_NOTE = 'trusted: model/bag.py top_state (spec rule: directory, not a symlink, sticky), snapshot function'
@@ -57,6 +60,26 @@ def gen(rng):
     G.add_trashed(steps, G.home_trash_of(L['env']), 'homeent', TG.pct(home + '/w/homeent'), '2020-04-01T01:02:03', 'file', tag='h')
     cmd = rng.choice(['trash-put', 'trash-list', 'trash-restore', 'trash-restore', 'trash-empty', 'trash-empty', 'trash-rm'])
     stdin = ''
+    sticky_vols = [v for v in L['vols'] if L['trash'][v]['top'] == 'sticky']
+    if sticky_vols and rng.random() < 0.12:
+        # $topdir/.Trash is fine when trash-put starts and stops being so between two arguments of the same run: somebody
+        # strips the sticky bit / replaces it by a symlink / removes it while the user is asked about the next argument
+        # (-i), or .Trash itself is one of the arguments.  What is trashed afterwards must not go under .Trash/$uid.
+        v = rng.choice(sticky_vols)
+        wd = L['work'][v]
+        for nm in ('before', 'after1', 'after2'):
+            steps.append(['f', wd + '/' + nm, 'content of ' + nm, 0o644])
+        how = rng.choice(['chmod', 'chmod', 'symlink', 'remove', 'argument'])
+        if how == 'argument':
+            argv = ['trash-put', wd + '/before', v + '/.Trash', wd + '/after1', wd + '/after2']
+        else:
+            argv = ['trash-put', '-i', wd + '/before', wd + '/after1', wd + '/after2']
+        return {
+            'world': {'mounts': L['mounts'], 'steps': steps},
+            'procs': [{'argv': argv, 'env': L['env'], 'cwd': '/', 'uid': uid, 'stdin': ''}],
+            'dirsalt': rng.randrange(1 << 30),
+            'midrun': {'how': how, 'volume': v, 'before_prompt': rng.choice([2, 2, 3])},
+        }
     if cmd == 'trash-put':
         argv = [cmd] + rng.choice([[], ['-v']]) + [L['work'][rng.choice(L['vols'])] + '/victim']
     elif cmd == 'trash-list':
@@ -75,7 +98,79 @@ def gen(rng):
     }
 
 
+def check_midrun(sim, case, st):
+    from sim.vkernel import environment      # the environment acts through the real system calls, not through the seam
+    sim.setup(case)
+    spec = dict(case['procs'][0])
+    argv = spec['argv']
+    mr = case['midrun']
+    v, how = mr['volume'], mr['how']
+    uid = spec.get('uid', 1000)
+    mounts = OR.mounts_of(case)
+    snap0 = sim.snap()
+    top = v + '/.Trash'
+    if MB.top_state(snap0, v) != 'ok':
+        return []
+    calls = [0]
+    changed_at = [None]
+
+    def user(out):
+        calls[0] += 1
+        if calls[0] == mr['before_prompt'] and changed_at[0] is None:
+            real = sim.root + top
+            with environment() as O:
+                if how == 'chmod':
+                    O.chmod(real, 0o777)
+                elif how == 'symlink':
+                    O.rename(real, real + '.moved')
+                    O.symlink('.Trash.moved', real)
+                elif how == 'remove':
+                    Wd.build(sim.root, {'steps': [['rm', top]]})
+            changed_at[0] = calls[0]
+        return 'y\n'
+    if how == 'argument':
+        r = sim.run(spec)
+        later = argv[argv.index(top) + 1:]
+    else:
+        r = sim.run(spec, stdin_fn=user)
+        files = [a for a in argv[1:] if not a.startswith('-')]
+        later = files[mr['before_prompt'] - 1:] if changed_at[0] is not None else []
+    st.sims += 1
+    st.ops += r.nops
+    snap1 = sim.snap()
+    st.probes['cmd-trash-put'] += 1
+    st.probes['dot-Trash-becomes-insecure-between-arguments'] += 1
+    st.distinct.add(('midrun', how, mr['before_prompt']))
+    res = []
+    # where did the later arguments go?  (contents are unique)
+    for a in later:
+        content = ('content of ' + posixpath.basename(a)).encode()
+        for k, val in snap1.items():
+            if k in snap0 or val[0] != 'f' or '/files/' not in k:
+                continue
+            try:
+                data = Wd.read_bytes(sim.root, k)
+            except OSError:
+                continue
+            if data == content:
+                st.probes['later-argument-trashed'] += 1
+                if k.startswith(top + '/') or k.startswith(top + '.moved/'):
+                    res.append(('C08/put-used-dot-Trash-after-it-became-insecure/%s' % how,
+                                'trash-put stored %r at %r although %s stopped being a sticky real directory before that argument was handled '
+                                '(how: %s; argv %r, exit %s)\nstderr: %s' % (a, k, top, how, argv, r.exit, r.errs[-400:])))
+    if how == 'argument' and top in snap1 and MB.top_state(snap1, v) != 'ok' and any(k.startswith(top + '/') for k in snap1):
+        res.append(('C08/put-recreated-dot-Trash/%s' % how, 'after the run %s exists again as %s and is populated (argv %r)' % (top, MB.top_state(snap1, v), argv)))
+    seen, out = set(), []
+    for sg, m in res:
+        if sg not in seen:
+            seen.add(sg)
+            out.append((sg, m))
+    return out
+
+
 def check(sim, case, st):
+    if case.get('midrun'):
+        return check_midrun(sim, case, st)
     sim.setup(case)
     spec = dict(case['procs'][0])
     argv = spec['argv']
